@@ -153,12 +153,18 @@ def guarded_asserts(run, model):
                                     for h in hs:
                                         if h.body is None or not h.body["stmts"]:
                                             continue
-                                        t0 = S.norm_ws(run.facts.text(h.file, h.body["stmts"][0]["sp"]))
+                                        # the first statement that touches the parser (plain lets without a `p.` call may precede it)
+                                        lead = [st_ for st_ in h.body["stmts"] if not (st_["k"] == "Local" and not any(
+                                            c_["k"] == "MethodCall" and S.is_path(c_["recv"], "p") for c_ in S.walk(st_)))]
+                                        if not lead:
+                                            continue
+                                        t0 = S.norm_ws(run.facts.text(h.file, lead[0]["sp"]))
                                         if t0 in (f"if!{needle}{{returnfalse;}}", f"if!{needle_q}{{returnfalse;}}"):
                                             ok = True
                     if not ok:
                         # same function asserts the same K first and has not advanced yet (delegation)
-                        for st in g.body["stmts"][:2]:
+                        for st in [st_ for st_ in g.body["stmts"] if not (st_["k"] == "Local" and not any(
+                                c_["k"] == "MethodCall" and S.is_path(c_["recv"], "p") for c_ in S.walk(st_)))][:2]:
                             e = st.get("expr") if st["k"] == "ExprStmt" else None
                             if e and e["k"] == "Macro" and e["name"] == "assert" and S.norm_ws(e.get("tokens", "")) in (needle, needle_q):
                                 pre = [x for x in S.walk(g.body) if x["k"] in ("Call", "MethodCall") and (x["sp"][0], x["sp"][1]) < (c["sp"][0], c["sp"][1])
